@@ -72,6 +72,13 @@ def main():
             rc, out = sh(f"./check {c} --tier quick", cwd=os.environ.get("VERIF_ROOT", "/verif"), timeout=3600)
             vio = [l for l in out.split("\n") if l.startswith("VIOLATION")]
             caught[c] = {"rc": rc, "violations": vio[:3], "s": round(time.time() - t0)}
+            try:
+                m = re.search(r"replay=(\S+)", vio[0]) if vio else None
+                if m:
+                    rp = json.load(open(m.group(1)))
+                    caught[c]["first"] = {k: (str(rp.get(k))[:300]) for k in ("kind", "suite", "note", "impl", "other", "broken") if rp.get(k) is not None}
+            except Exception as e:
+                caught[c]["first"] = {"error": str(e)}
     finally:
         sh("git -C /repo checkout -- .")
         sh("git -C /repo clean -fdq -e verif_* ")
